@@ -342,6 +342,12 @@ class C13(Prop):
                         k = pool.pop()
                         extra = [pool.pop()] if pool and rng.random() < .5 else []
                         d.append([k, extra + [k]])
+                if L and rng.random() < 0.35:
+                    # un-grouping update: a member becomes a leader of its own, its old group loses it
+                    cands = [(k, m) for k in L for m in ref.members(k) if not eq(m, k)]
+                    if cands:
+                        k, m = rng.choice(cands)
+                        d = [[k, [x for x in ref.members(k) if not eq(x, m)]], [m, [m]]]
                 if d:
                     op = ["update", d]
             elif kind == "remove" and L:
